@@ -111,6 +111,15 @@ P = {
          "16 KiB pool limit, thresholds) must be alone on the destination, carry exactly the line the record gives when logged alone, "
          "once per enabled record and never for disabled ones",
          "witnessed schedules only (dwell inside Write makes overlap near-certain if serialisation is missing); timestamps masked", "5/C02"),
+ "C19": ("spec/util/Progress.tla, spec/util/ProgressCases.tla",
+         "TLA+ model of Write (wrapped writer reports any k<=n with or without error, size update, non-blocking offer that succeeds only "
+         "against a parked receiver) and Close (blocking send + close) against an arbitrarily scheduled consumer; TLC checks 6 invariants "
+         "over all schedules and rejects the blocking-send mutant; traces of the real writer with scripted wrapped writers and consumers "
+         "are judged by TLC; stalls are decided on stable states",
+         "all schedules of the bounded model (<=4/6 writes, every short/failed count); on real code: Size() = sum of reported counts, "
+         "received values non-decreasing and each a total, writer never parked inside Write (goroutine census), Close delivers the total "
+         "and closes the channel",
+         "witnessed schedules; stall detection = writer parked in ProgressWriter.sum over two samples without any event", "5/C19"),
 }
 
 NOT_BUILT_REASON = "check not built yet in this session (see DESIGN.md section 5 for the planned TLA+ spec and binding)"
